@@ -1738,7 +1738,59 @@ pub fn c18(rec: &mut Rec, rng: &mut Rng, thorough: bool) {
 }
 
 /// server part of C04 / C11 / C13: limits per connection, 400 text, no yield of a rejected request, 100-continue
+/// C11 at capacity: ten connections, one of them answered with a 400 (flushed, nothing in flight); an 11th client is
+/// turned away with the 503 like any other — and the client that was answered with the 400 keeps its connection: its
+/// next well-formed request is yielded and answered
+pub fn c11_rejected_client_keeps_slot(rec: &mut Rec, rng: &mut Rng) {
+    rec.case("rejected-client-at-capacity");
+    rec.nontrivial();
+    let mut cfg = Cfg::base("C11");
+    cfg.max_clients = 13;
+    let mut sim = Sim::new(rec, cfg);
+    for _ in 0..10 {
+        sim.connect(rec);
+        sim.poll(rec);
+    }
+    let v = 3usize;
+    sim.w.send(rec, v, b"BOGUS /x HTTP/1.1\r\n\r\n");
+    sim.plans[v].sent_garbage = true;
+    for _ in 0..3 {
+        sim.poll(rec);
+    }
+    sim.w.client_read(rec, v);
+    let x = sim.connect(rec);
+    for _ in 0..3 {
+        sim.poll(rec);
+    }
+    sim.w.client_read(rec, x);
+    if !sim.w.clients[x].refused {
+        rec.oracle_fail("C10", "an 11th client was not refused although 10 connections are open (one of them answered with a 400)", &sim.w.log);
+    }
+    sim.w.clients[v].received.clear();
+    sim.w.send(rec, v, format!("GET /c{}/after HTTP/1.1\r\n\r\n", v).as_bytes());
+    for _ in 0..3 {
+        sim.poll(rec);
+    }
+    let want = format!("/c{}/after", v);
+    if let Some(k) = sim.w.held.iter().position(|h| h.tag == want) {
+        sim.respond(rec, rng, k);
+    } else {
+        rec.oracle_fail("C11", "at capacity: a well-formed request after a rejected one was not yielded (the client that was answered with a 400 lost its connection)", &sim.w.log);
+    }
+    for _ in 0..3 {
+        sim.poll(rec);
+    }
+    sim.w.client_read(rec, v);
+    let (resps, _) = split_responses(&sim.w.clients[v].received);
+    if !resps.iter().any(|r| r.0 == 200) && sim.w.yielded.iter().any(|(_, t)| *t == want) {
+        rec.oracle_fail("C11", "at capacity: the answer to the well-formed request after a rejected one did not arrive", &sim.w.log);
+    }
+    sim.settle(rec, rng);
+    sim.w.teardown();
+}
+
 pub fn srv_conn(rec: &mut Rec, rng: &mut Rng, thorough: bool) {
+    c11_rejected_client_keeps_slot(rec, rng);
     let n = if thorough { 600 } else { 40 };
     for _ in 0..n {
         rec.case("server-limit-400-continue");
